@@ -29,10 +29,16 @@ def run(i):
     if v not in ('sat', 'unsat'):
         v2, dt2, _ = solve.run_cvc5(p, to); tries.append(('cvc5', v2, round(dt2, 1)))
         if v2 in ('sat', 'unsat'): v = v2
+    if v not in ('sat', 'unsat') and o.focus is not None:
+        pf = f'{d}/{i}.focus.smt2'; open(pf, 'w').write(E.obligation_smt2(ex, o, focus=True))
+        pn = f'{d}/{i}.nohint.smt2'; open(pn, 'w').write(E.obligation_smt2(ex, o, focus='nohint'))
+        for nm, fn_, pp in (('z3/focus', solve.run_z3, pf), ('z3/nohint', solve.run_z3, pn), ('cvc5/focus', solve.run_cvc5, pf), ('cvc5/nohint', solve.run_cvc5, pn)):
+            v3, dt3, _ = fn_(pp, to); tries.append((nm, v3, round(dt3, 1)))
+            if v3 == 'unsat': v = v3; break
     return (i, v, tries, o.kind, o.name)
 with ThreadPoolExecutor(16) as ex_:
     for r in ex_.map(run, range(len(obs))):
         if r is None: continue
         if r[1] == 'unsat' and not os.environ.get('ALL'): continue
-        print(r[0], r[1], r[2], r[3], r[4][:170])
+        print(r[0], r[1], r[2], r[3], r[4][:260])
 print('total', len(obs))
